@@ -71,8 +71,10 @@ func checkStaleBody(c StaleCase, cv *cov) *evid.Violation {
 				if got, ok := s2.Get(k); !ok || got != want {
 					return evid.Failf("%s: Get(%q) = (%q,%v), a Go map holding the loaded pairs answers (%q,true)", when, clip(k), clip(got), ok, clip(want))
 				}
-				if got, ok := s2.Get(k + "\x01"); ok {
-					return evid.Failf("%s: Get(%q) = (%q,true) for a key that was not loaded", when, clip(k+"\x01"), clip(got))
+				if _, loaded := modelS[k+"\x01"]; !loaded {
+					if got, ok := s2.Get(k + "\x01"); ok {
+						return evid.Failf("%s: Get(%q) = (%q,true) for a key that was not loaded", when, clip(k+"\x01"), clip(got))
+					}
 				}
 			}
 			return nil
